@@ -51,7 +51,8 @@ extern ssize_t mpt_logfile_push(MPT_STRUCT(logfile) *log, size_t len, const void
 		    break;
 		  default: fd = 0;
 		}
-		if (!len) {
+		/* message is finished or abandoned (single element without data) */
+		if (!len || (len == 1 && !src)) {
 			if (fd) {
 				/* incomplete message */
 				if ((log->mode & 0x80)
